@@ -15,7 +15,8 @@ OBLIGATIONS = ["maxsum_factor_marginal_partial", "maxsum_select_value_partial", 
                "maxsum_graph_ok", "maxsum_algo_ok", "maxsum_refines_rounds", "maxsum_suppression_lifted",
                "maxsum_tree_messages", "maxsum_tree_select", "maxsum_tree_exact",
                "amaxsum_spoken_ok_all", "amaxsum_basic_invariants", "amaxsum_edge_consistent",
-               "amaxsum_quiescent_fixed_point", "amaxsum_fixed_point_exact", "amaxsum_tree_exact"]
+               "amaxsum_quiescent_fixed_point", "amaxsum_fixed_point_exact", "amaxsum_tree_exact",
+               "amaxsum_tree_exact_default_stability_refuted"]
 N_QUICK, N_THOROUGH = 250, 3000
 PARALLEL = 8
 SHARD = 20
